@@ -321,6 +321,45 @@ def decode_buffer_alias_problem(flavour_name, raw, rng):
     return None
 
 
+_ENV_VARS_CACHE = None
+
+
+def source_env_vars():
+    """Names of the environment variables that the package's source reads (os.environ[...], os.environ.get(...),
+    os.getenv(...)), found by scanning netqasm/**/*.py of the tree under test (examples excluded)."""
+    global _ENV_VARS_CACHE
+    if _ENV_VARS_CACHE is not None:
+        return _ENV_VARS_CACHE
+    import os
+    import re
+    from vlib import common as _c
+    root = os.path.join(_c.REPO, "netqasm")
+    pat = re.compile(r"""(?:os\.environ(?:\.get)?\s*[\(\[]|os\.getenv\s*\(|environ(?:\.get)?\s*[\(\[])\s*["']([A-Za-z_][A-Za-z0-9_]*)["']""")
+    names = set()
+    for d, _dirs, files in os.walk(root):
+        if os.sep + "examples" in d:
+            continue
+        for fn in files:
+            if fn.endswith(".py"):
+                try:
+                    names.update(pat.findall(open(os.path.join(d, fn), errors="replace").read()))
+                except OSError:
+                    pass
+    # constants such as SIMULATOR_ENV = "NETQASM_SIMULATOR" used as os.environ[SIMULATOR_ENV]
+    const = re.compile(r"""^[A-Z_]+\s*=\s*["'](NETQASM_[A-Z0-9_]+)["']""", re.M)
+    for d, _dirs, files in os.walk(root):
+        if os.sep + "examples" in d:
+            continue
+        for fn in files:
+            if fn.endswith(".py"):
+                try:
+                    names.update(const.findall(open(os.path.join(d, fn), errors="replace").read()))
+                except OSError:
+                    pass
+    _ENV_VARS_CACHE = names
+    return names
+
+
 def global_configs():
     """Process-wide configuration knobs of the package under which the wire format must not change:
     a list of (name, enter, leave). Discovered from netqasm.runtime.settings (every module-level `set_*`
@@ -376,6 +415,20 @@ def global_configs():
 
     for val in ("netsquid", "simulaqron", "debug", "netsquid_single_thread"):
         cfgs.append((f"env NETQASM_SIMULATOR={val}", env_enter(val), env_leave))
+
+    # every other environment variable the package's source reads (feature switches): switched on
+    def envvar_enter(name, val):
+        def enter():
+            env = dict(os.environ)
+            os.environ[name] = val
+            return env
+        return enter
+
+    for name in sorted(source_env_vars()):
+        if name == "NETQASM_SIMULATOR":
+            continue
+        for val in ("1", "true"):
+            cfgs.append((f"env {name}={val}", envvar_enter(name, val), env_leave))
 
     def log_enter(level):
         def enter():
